@@ -265,6 +265,7 @@ static bool strict_quad(const std::string &t)
 		size_t j = i; int v = 0;
 		while (j < t.size() && isdigit((unsigned char)t[j]) && j - i < 4) { v = v * 10 + (t[j] - '0'); j++; }
 		if (j == i || j - i > 3 || v > 255) return false;
+		if (j - i > 1 && t[i] == '0') return false;      // "010" is eight to ifconfig and inet_addr(): not the address that was validated
 		parts++;
 		if (j == t.size()) break;
 		if (t[j] != '.') return false;
